@@ -798,6 +798,31 @@ func vfxDrawCase(d *vfDraws, only string) *vfxCase {
 	isFetch := entry == vfxEFetch || (entry == vfxEResp && pair.Type == vfxFetchIndex)
 
 	kind := d.vfN(24)
+	if entry == vfxEHeader && d.vfBool() {
+		// the header's whole domain is a length, a correlation id and (v1) a tagged-field section: walk the length through
+		// every boundary of the arithmetic around it (0 .. a few bytes beyond the header itself, both ends of int32, both
+		// sides of MaxResponseSize with and without the header's own bytes)
+		c.Version = int16(d.vfN(1))
+		var length int64
+		switch d.vfN(5) {
+		case 0, 1:
+			length = int64(d.vfN(24)) - 4 // -4 .. 20
+		case 2:
+			length = int64(MaxResponseSize) + int64(d.vfN(24)) - 12
+		case 3:
+			length = []int64{math.MinInt32, math.MinInt32 + 1, math.MaxInt32, math.MaxInt32 - 1, math.MaxInt32 - 8, -1 << 16}[d.vfN(5)]
+		default:
+			length = int64(d.vfInt32())
+		}
+		c.Input = make([]byte, 8, 12)
+		binary.BigEndian.PutUint32(c.Input, uint32(int32(length)))
+		binary.BigEndian.PutUint32(c.Input[4:], uint32(d.vfInt32()))
+		if c.Version == 1 {
+			c.Input = append(c.Input, []byte{0, 0, 0, 1, 0x7f, 0x80, 0xff}[d.vfN(6)])
+		}
+		c.Mut = "header-length-boundary"
+		return c
+	}
 	// pure noise
 	if kind <= 1 {
 		c.Input = vfxRandomBytes(d, kind == 1)
